@@ -512,6 +512,117 @@ def _closure_has_effects(cj):
     return False
 
 
+def _single_def_rv(j, l):
+    """the rvalue of the only assignment to local l in the raw body j (None when it is assigned twice or is a call result)"""
+    found = None
+    for bl in j['blocks']:
+        for st in bl['stmts']:
+            if st['k'] == 'assign' and st['place']['local'] == l and not st['place']['proj']:
+                if found is not None:
+                    return None
+                found = st['rv']
+        t = bl['term']
+        if t['k'] == 'call' and t['dest']['local'] == l and not t['dest']['proj']:
+            return None
+    return found
+
+
+def _trace_operand(j, op, want, depth=0):
+    """follow an operand back through plain moves / copies / borrows of whole locals to the local whose single definition
+    satisfies want(rv); returns (local, rv) or None"""
+    for _ in range(12):
+        if op.get('k') not in ('copy', 'move') or op['place']['proj']:
+            return None
+        l = op['place']['local']
+        rv = _single_def_rv(j, l)
+        if rv is None:
+            return None
+        if want(rv):
+            return l, rv
+        if rv['k'] == 'use' and rv['op'].get('k') in ('copy', 'move'):
+            op = rv['op']
+            continue
+        if rv['k'] == 'ref' and not rv['place']['proj']:
+            op = {'k': 'copy', 'place': rv['place']}
+            continue
+        return None
+    return None
+
+
+def inline_direct_closure_calls(fns_by_path, max_rewrites=40):
+    """`f(a, b)` where f is a closure VALUE the same body built (a closure handed to a generic helper that was spliced in, or
+    bound with `let` and called): the call is `FnOnce::call_once(f, (a, b))` on an opaque type.  It is replaced by the closure's
+    body (parameters bound to the tuple's fields), which is what the compiled code runs.  Returns {caller: [closure paths]}."""
+    done = {}
+    originals = {}
+    for path, j in list(fns_by_path.items()):
+        n = 0
+        bi = 0
+        while bi < len(j['blocks']) and n < max_rewrites:
+            bl = j['blocks'][bi]
+            t = bl['term']
+            bi += 1
+            if t['k'] != 'call' or len(t['args']) != 2:
+                continue
+            name = t['callee'].get('path') or ''
+            if name not in ('core::ops::function::FnOnce::call_once', 'core::ops::function::FnMut::call_mut', 'core::ops::function::Fn::call'):
+                continue
+            clo = _trace_operand(j, t['args'][0], lambda rv: rv['k'] == 'aggregate' and rv.get('closure'))
+            tup = _trace_operand(j, t['args'][1], lambda rv: rv['k'] == 'aggregate' and rv.get('agg') == 'Tuple')
+            if clo is None or tup is None:
+                continue
+            cp = clo[1]['closure']
+            if cp not in fns_by_path or cp == path or cp in bl.get('inl', ()):
+                continue
+            cj = originals.setdefault(cp, copy.deepcopy(fns_by_path[cp]))
+            ops = tup[1]['ops']
+            if cj['arg_count'] != len(ops) + 1 or len(cj['blocks']) > 200:
+                continue
+            loff, boff, poff = len(j['locals']), len(j['blocks']), len(j.get('promoted') or [])
+            stack = tuple(bl.get('inl', ())) + (cp,)
+            for l in cj['locals']:
+                l2 = dict(l)
+                l2['i'] = l['i'] + loff
+                l2['inl'] = cp
+                j['locals'].append(l2)
+            for pr in cj.get('promoted') or []:
+                pr2 = copy.deepcopy(pr)
+                pr2['i'] = pr['i'] + poff
+                j.setdefault('promoted', []).append(pr2)
+            for cb in cj['blocks']:
+                nb = _remap(cb, loff, boff, poff)
+                nb['i'] = cb['i'] + boff
+                nb['inl'] = stack + tuple(cb.get('inl', ()))
+                tt = nb['term']
+                if tt['k'] == 'return':
+                    nb['stmts'].append({'k': 'assign', 'place': t['dest'],
+                                        'rv': {'k': 'use', 'op': {'k': 'move', 'place': {'local': loff, 'proj': [], 'ty': cj['locals'][0]['ty'], 'text': '_%d' % loff}}},
+                                        'span': t['span'], 'inl_ret': cp})
+                    if t.get('target') is not None:
+                        nb['term'] = {'k': 'goto', 'target': t['target']}
+                    else:
+                        nb['term'] = {'k': 'unreachable'}
+                elif tt['k'] == 'resume' and isinstance(t.get('unwind'), int):
+                    nb['term'] = {'k': 'goto', 'target': t['unwind']}
+                j['blocks'].append(nb)
+            # the closure's own parameter: the closure value, or a borrow of it when the body takes `&self`
+            cty = cj['locals'][1]['ty']
+            cplace = {'local': clo[0], 'proj': [], 'ty': j['locals'][clo[0]]['ty'], 'text': '_%d' % clo[0]}
+            if cty.startswith('&'):
+                rv0 = {'k': 'ref', 'place': cplace, 'mut': ' mut ' in cty[:24]}
+            else:
+                rv0 = {'k': 'use', 'op': {'k': 'move', 'place': cplace}}
+            bl['stmts'].append({'k': 'assign', 'place': {'local': loff + 1, 'proj': [], 'ty': cty, 'text': '_%d' % (loff + 1)}, 'rv': rv0, 'span': t['span'], 'inl_arg': cp})
+            for i, a in enumerate(ops):
+                lt = cj['locals'][i + 2]['ty']
+                bl['stmts'].append({'k': 'assign', 'place': {'local': loff + i + 2, 'proj': [], 'ty': lt, 'text': '_%d' % (loff + i + 2)},
+                                    'rv': {'k': 'use', 'op': a}, 'span': t['span'], 'inl_arg': cp})
+            bl['term'] = {'k': 'goto', 'target': boff, 'inl_call': cp, 'span': t['span']}
+            n += 1
+            done.setdefault(path, []).append(cp)
+    return done
+
+
 def desugar_effect_closures(fns_by_path, max_rewrites=40):
     """returns {caller: [closure paths spliced]}"""
     done = {}
@@ -708,6 +819,9 @@ def load_pinned():
     return json.load(open(p))
 
 
+CURRENT_FACTS = None
+
+
 class Facts:
     def __init__(self, lib_path, bin_path=None):
         self.lib = json.load(open(lib_path))
@@ -731,7 +845,10 @@ class Facts:
                 for fj in d['fns']:
                     byp.setdefault(fj['path'], fj)
                 done = inline_new_helpers(byp, set(pinned[crate]))
+                done3 = inline_direct_closure_calls(byp)
                 done2 = desugar_effect_closures(byp)
+                for k_, v_ in done3.items():
+                    done.setdefault(k_, []).extend(v_)
                 for k_, v_ in done2.items():
                     done.setdefault(k_, []).extend(v_)
                 for k_, v_ in done.items():
@@ -762,6 +879,9 @@ class Facts:
             self.dropped = sorted(drop)
         self.adts = {a['path']: a for a in self.lib['adts']}
         self.consts = {c['path']: c for c in self.lib['consts']}
+        global CURRENT_FACTS
+        if CURRENT_FACTS is None:
+            CURRENT_FACTS = self
         self.impls = self.lib['impls']
         self.statics = self.lib['statics'] + (self.bin['statics'] if self.bin else [])
 
@@ -910,7 +1030,7 @@ STD_ENUMS = {
     'core::option::Option': ['None', 'Some'],
     'core::result::Result': ['Ok', 'Err'],
     'core::ops::control_flow::ControlFlow': ['Continue', 'Break'],
-    'core::cmp::Ordering': None,
+    'core::cmp::Ordering': {255: 'Less', -1: 'Less', 0: 'Equal', 1: 'Greater'},      # repr(i8): the switch sees the bit pattern of -1
 }
 
 
@@ -945,6 +1065,8 @@ class AbsInt:
         a = self.facts.adts.get(enum_path)
         if not a:
             vs = STD_ENUMS.get(enum_path)
+            if isinstance(vs, dict):
+                return vs.get(d)
             if vs and 0 <= d < len(vs):
                 return vs[d]
             return None
@@ -1348,7 +1470,10 @@ class AbsInt:
                             taken = {x for x, _ in targets}
                             a = self.facts.adts.get(v[2])
                             rest = []
-                            if not a and STD_ENUMS.get(v[2]):
+                            if not a and isinstance(STD_ENUMS.get(v[2]), dict):
+                                named = {STD_ENUMS[v[2]].get(x) for x in taken}
+                                rest = [n for n in dict.fromkeys(STD_ENUMS[v[2]].values()) if n not in named]
+                            elif not a and STD_ENUMS.get(v[2]):
                                 rest = [n for i, n in enumerate(STD_ENUMS[v[2]]) if i not in taken]
                             if a:
                                 for i, vv in enumerate(a['variants']):
